@@ -43,7 +43,8 @@ ASSUMPTIONS = ["json_ref_dict resolves references (trusted); documents are non-r
                "text-level printing (quoting, line layout, CPython literal repr) is compared through Python's own parser, not modelled"]
 N_DOCS = {"quick": 200, "thorough": 8000}
 TITLES = ["Item", "item", "Thing", "thing list", "Child", "child_node", "HTTPResponse", "a-b", "Item"]
-CLEAN_PROPS = ["name", "value", "child", "items_", "kind", "x1", "camelCase", "snake_case", "with space", "with-hyphen", "UPPER"]
+CLEAN_PROPS = ["name", "value", "child", "items_", "kind", "x1", "camelCase", "snake_case", "with space", "with-hyphen", "UPPER",
+               "from_", "in_", "examples", "$comment", "title", "default"]
 TYPING_CANDIDATES = {"Any", "List", "Union"}
 
 
